@@ -1,6 +1,6 @@
 """C25 — hy.repr of models reads back: registration exhaustiveness, attribute and children coverage of the printers."""
 CANON = True
-LENIENT = False  # rules over .hy sources (own s-expression reader); no canonical form there
+LENIENT = True   # .hy rules: a failed test is believed only for armed instances in a nearly-unchanged form (fdiff.hy_small_edit)
 
 from .. import hysexp
 from .c28 import check as _c28  # noqa: F401
